@@ -510,3 +510,16 @@ func tcpStates() map[[2]int]int {
 	}
 	return out
 }
+
+// clientGone: has the in-process frpc service ended (Service.Run returned)?
+func clientGone(cli *h.Client) bool {
+	if cli == nil {
+		return false
+	}
+	select {
+	case <-cli.Done():
+		return true
+	default:
+		return false
+	}
+}
